@@ -18,7 +18,7 @@ Local Open Scope string_scope.
 
 (* The Section variables of the generated file (the calls that are not translated) are instantiated
    by position below; these lines pin their names, so a change of callee cannot go unnoticed. *)
-Arguments CheckAndSet_Begin error_T time_Now ErrCASConflict fmt_Errorf _ _ : assert.
+Arguments CheckAndSet_Begin error_T time_Now fmt_Errorf _ _ : assert.
 Arguments MultiRSW_BeginRead error_T NewErrMRSWConflict _ : assert.
 Arguments MultiRSW_BeginWrite error_T NewErrMRSWConflict fmt_Sprintf _ _ : assert.
 Arguments MultiRSW_UpgradeToWriter error_T NewErrMRSWConflict fmt_Sprintf _ _ : assert.
@@ -44,12 +44,11 @@ Ltac unf_cas := cbv beta iota zeta delta [rep_cas cas_core gen_core CheckAndSet_
 Section Cas.
   Variable E : Type.
   Variable now : Z.
-  Variable errc : option E.
-  Variable errorf : string -> option E -> string -> Z -> E.
+  Variable errorf : string -> E.
 
   Lemma gen_cas_Begin_eq : forall s start t o,
-    gen_core (fst (CheckAndSet_Begin E now errc errorf (rep_cas s start) o)) = cas_core (fst (cas_step_obs s (CBegin t o))) /\
-    obs_of_err (snd (CheckAndSet_Begin E now errc errorf (rep_cas s start) o)) = snd (cas_step_obs s (CBegin t o)).
+    gen_core (fst (CheckAndSet_Begin E now errorf (rep_cas s start) o)) = cas_core (fst (cas_step_obs s (CBegin t o))) /\
+    obs_of_err (snd (CheckAndSet_Begin E now errorf (rep_cas s start) o)) = snd (cas_step_obs s (CBegin t o)).
   Proof. intros [st ow hs] start t o; unf_cas; split; gen_cases. Qed.
 
   Lemma gen_cas_End_eq : forall s start t,
@@ -195,12 +194,12 @@ Lemma gen_rt_Reset_eq : forall s, ReadyTarget_Reset N nat 0%N (rep_rt s) = rep_r
 Proof. intros [cur subs closed next]; unf_rt; reflexivity. Qed.
 
 (* everything above in one statement (what Props/C34.v states) *)
-Lemma gen_rsync_eq : forall (E : Type) (now : Z) (errc : option E) (errorf : string -> option E -> string -> Z -> E)
+Lemma gen_rsync_eq : forall (E : Type) (now : Z) (errorf : string -> E)
     (mkerr : string -> option E) (sprintf : string -> Z -> string),
   (forall m, mkerr m <> None) ->
   (forall s start t o,
-     gen_core (fst (CheckAndSet_Begin E now errc errorf (rep_cas s start) o)) = cas_core (fst (cas_step_obs s (CBegin t o))) /\
-     obs_of_err (snd (CheckAndSet_Begin E now errc errorf (rep_cas s start) o)) = snd (cas_step_obs s (CBegin t o))) /\
+     gen_core (fst (CheckAndSet_Begin E now errorf (rep_cas s start) o)) = cas_core (fst (cas_step_obs s (CBegin t o))) /\
+     obs_of_err (snd (CheckAndSet_Begin E now errorf (rep_cas s start) o)) = snd (cas_step_obs s (CBegin t o))) /\
   (forall s start t,
      gen_core (CheckAndSet_End (rep_cas s start)) = cas_core (fst (cas_step_obs s (CEnd t))) /\
      Ok = snd (cas_step_obs s (CEnd t))) /\
@@ -235,8 +234,8 @@ Lemma gen_rsync_eq : forall (E : Type) (now : Z) (errc : option E) (errorf : str
      (closes (snd r) ++ r_closed s)%list = r_closed (rt_step s (RSignal i))) /\
   (forall s, ReadyTarget_Reset N nat 0%N (rep_rt s) = rep_rt (rt_step s RReset)).
 Proof.
-  intros E now errc errorf mkerr sprintf H.
-  exact (conj (gen_cas_Begin_eq E now errc errorf) (conj gen_cas_End_eq (conj gen_cas_Owner_eq
+  intros E now errorf mkerr sprintf H.
+  exact (conj (gen_cas_Begin_eq E now errorf) (conj gen_cas_End_eq (conj gen_cas_Owner_eq
         (conj (gen_BeginRead_eq E mkerr H) (conj gen_EndRead_eq (conj (gen_BeginWrite_eq E mkerr sprintf H)
         (conj gen_EndWrite_eq (conj (gen_Upgrade_eq E mkerr sprintf H)
         (conj gen_rt_Subscribe_eq (conj gen_rt_Unsubscribe_eq (conj gen_rt_Signal_eq gen_rt_Reset_eq))))))))))).
